@@ -1544,6 +1544,8 @@ def _np_attr(attr):
         'arange': arange,
         'transpose': transpose, 'maximum': np_max, 'minimum': np_min,
         'seterr': lambda *a, **k: None,
+        'min': lambda v, **k: _reduce_minmax(v, min, k), 'amin': lambda v, **k: _reduce_minmax(v, min, k),
+        'max': lambda v, **k: _reduce_minmax(v, max, k), 'amax': lambda v, **k: _reduce_minmax(v, max, k),
         'issubdtype': lambda dt, kind: UNK if (isunk(dt) or isunk(kind)) else (dt == 'float' and kind in ('inexact', 'floating')),
         'inexact': 'inexact', 'floating': 'floating',
         'iscomplexobj': lambda v: UNK if isunk(v) else False,
@@ -1552,6 +1554,19 @@ def _np_attr(attr):
         'ndarray': ('TYPE', 'ndarray'),
     }
     return table.get(attr, UNK)
+
+
+def _reduce_minmax(v, fn, kw=None):
+    if kw:
+        raise Unsupported('min/max with axis or other keywords')
+    if isunk(v):
+        return UNK
+    a = as_arr(v)
+    if a.size == 0:
+        raise Fault('min()/max() of an empty array (ValueError)')
+    if any(isunk(x) for x in a.data):
+        return UNK
+    return fn(a.data)
 
 
 def _arr_attr(a, attr, node):
@@ -1584,6 +1599,10 @@ def _arr_attr(a, attr, node):
         return lambda: Arr(list(a.data), (a.size,))
     if attr == 'astype':
         return lambda *x, **k: a
+    if attr == 'min':
+        return lambda **k: _reduce_minmax(a, min, k)
+    if attr == 'max':
+        return lambda **k: _reduce_minmax(a, max, k)
     if attr == 'any':
         return lambda: _np_attr('any')(a)
     if attr == 'all':
@@ -1819,7 +1838,7 @@ def _b_isinstance(v, t):
     return res
 
 
-_ARR_ATTRS = {'shape', 'ndim', 'size', 'dtype', 'T', 'real', 'item', 'copy', 'ravel', 'flatten', 'astype', 'any',
+_ARR_ATTRS = {'min', 'max', 'shape', 'ndim', 'size', 'dtype', 'T', 'real', 'item', 'copy', 'ravel', 'flatten', 'astype', 'any',
               'all', 'transpose', 'reshape', 'tolist'}
 
 
